@@ -51,8 +51,12 @@ _SRC = os.path.abspath(os.environ.get("JOSERFC_SRC", "/repo/src"))
 
 VALUES = [None, True, False, 0, -1, 7, 2 ** 70, -2 ** 70, 1.5, "", "x", "HS256", "A128GCM", "DEF", "é\u0000", [], ["x"], [1], [[]],
           [{}], [None], {}, {"a": 1}, {"kty": "EC"}, "none", "dir", 10 ** 400, ["b64"], {"b64": False}, "AAAA"]
-MEMBERS = ["alg", "enc", "zip", "kid", "crit", "b64", "epk", "apu", "apv", "p2s", "p2c", "iv", "tag", "jwk", "jku", "x5c", "x5t",
+MEMBERS = ["alg", "enc", "zip", "kid", "crit", "b64", "epk", "apu", "apv", "p2s", "p2c", "iv", "tag", "jwk", "jku", "x5u", "x5c", "x5t",
            "typ", "cty", "skid", "zzz"]
+# strings that begin like a URL and are malformed in every way a URL parser may trip over
+URL_VALUES = ["https://", "http://", "https:///x", "https://:443/keys", "http://:80/", "https://user@/x", "https://@/", "https://user:pw@:9/", "https://[::1",
+              "https://[::1]:x/", "https://exa mple.com/", "HTTPS://EXAMPLE.COM/k", "https://\x00/", "https://a/" + "b" * 5000, "https://a:99999999/x",
+              "https://\u00e9.example/", "https://a/%zz", "https://a\\b/", "http://a?#", "https://.", "https://../x", "https://a..b/", "ftp://a/b", "https:/a/b", "//a/b"]
 # counts between 100001 and 2^31-1 would really be iterated (a denial-of-service matter): never generated.
 # counts >= 2^31 cannot be represented by the KDF binding and fail at once - with which exception type is C16's business
 P2C_VALUES = [None, True, 0, -1, -2 ** 70, 1, 3, 100000, 1.5, "3", [], {}, [3], 2 ** 31, 2 ** 32, 2 ** 63 - 1, 2 ** 63, 2 ** 64, 10 ** 30]
@@ -209,7 +213,8 @@ def weird_epk(rng: Rng):
             j[name] = b64.enc(octets)
         return j
     for _ in range(rng.randrange(1, 3)):
-        j[rng.pick(JWK_EXTRA_MEMBERS)] = copy.deepcopy(rng.pick(VALUES + [["sign"], ["deriveKey", ["x"]], {"sig": True}, "sig", "enc", [["deriveKey"]]]))
+        m_ = rng.pick(JWK_EXTRA_MEMBERS)
+        j[m_] = copy.deepcopy(rng.pick(URL_VALUES if m_ == "x5u" and rng.chance(0.7) else VALUES + [["sign"], ["deriveKey", ["x"]], {"sig": True}, "sig", "enc", [["deriveKey"]]]))
     return j
 
 
@@ -224,6 +229,8 @@ def mutate_member(rng: Rng, header: dict):
         v = rng.pick(P2C_VALUES)
     elif m in ("epk", "jwk") and rng.chance(0.7):
         v = copy.deepcopy(rng.pick(WEIRD_JWKS))
+    elif m in ("jku", "x5u") and rng.chance(0.7):
+        v = rng.pick(URL_VALUES)
     elif m == "crit" and rng.chance(0.5):
         v = rng.pick([["b64"], ["nope"], [1], "b64", {"b64": 1}, [["b64"]], [None], ["alg"], [{}]])
     else:
